@@ -23,7 +23,7 @@ def flattened_levels(spec, e):
     return flats
 
 
-def add_spacetime(rnd, spec, all_stamped=None, slip=None, only=None):
+def add_spacetime(rnd, spec, all_stamped=None, slip=None, only=None, flat_coord=False):
     s = spec.clone()
     st = {}
     tags = []
@@ -45,7 +45,8 @@ def add_spacetime(rnd, spec, all_stamped=None, slip=None, only=None):
         space, time = [], []
         for i, r in enumerate(stamped):
             is_flat = any(r.startswith(f) for f in flats)
-            style = rnd.choice(["", ".pos", ".coord"]) if not is_flat else rnd.choice(["", ".pos"])
+            style = rnd.choice(["", ".pos", ".coord"]) if (not is_flat or flat_coord) \
+                else rnd.choice(["", ".pos"])
             if style == ".coord":
                 tags.append("st-coord")
             (space if i in idx else time).append(r + style)
